@@ -91,6 +91,16 @@ class _PtsInterp(FinamInterp):
         if short == "indices":
             shp = args[0]
             return tuple(Sym("idgrid", k, tuple(shp)) for k in range(len(shp)))
+        if short == "arange" and len(args) == 1:
+            return Sym("arange", args[0])
+        if short == "broadcast_to" and len(args) == 2 and isinstance(args[0], Sym) and args[0].op == "axisvec":
+            k, n = args[0].args
+            shp = tuple(args[1])
+            if k is None:
+                return Sym("idgrid", None, shp)
+            if k >= len(shp) or shp[k] != n:
+                raise AnalysisError("index vector broadcast to a block whose extent along its axis differs")
+            return Sym("idgrid", k, shp)  # the index along axis k for every point of the block
         if short in ("asarray", "array", "atleast_1d", "ascontiguousarray"):
             return args[0]
         if short == "repeat" and len(args) == 2:
@@ -104,11 +114,23 @@ class _PtsInterp(FinamInterp):
             return Sym("mgrid")
         if isinstance(obj, Sym) and obj.op == "idgrid" and attr in ("reshape", "ravel", "flatten"):
             return Sym("method", obj, attr)
+        if isinstance(obj, Sym) and obj.op == "arange" and attr == "reshape":
+            return Sym("method", obj, "reshape")
         if isinstance(obj, Sym) and obj.op in ("ax", "rev", "pad_axis") and attr == "size":
             return Sym("len", obj)
         return super().get_attr(obj, attr, node, mod)
 
     def call_hook(self, fv, args, kwargs, node, mod):
+        if isinstance(fv, Sym) and fv.op == "method" and fv.args[0].op == "arange":
+            # np.arange(n).reshape((1, .., n, .., 1)): the index vector lying along one axis
+            n = fv.args[0].args[0]
+            shp = list(args[0]) if len(args) == 1 and isinstance(args[0], (list, tuple)) else list(args)
+            along = [i for i, x in enumerate(shp) if x != 1]
+            if len(along) == 1 and shp[along[0]] == n:
+                return Sym("axisvec", along[0], n)
+            if not along and n == 1:
+                return Sym("axisvec", None, 1)  # the single index 0 of a one-point (padding) axis: the same along any axis
+            raise AnalysisError("index vector reshaped to something else than a vector along one axis")
         if isinstance(fv, Sym) and fv.op == "method":
             g, m = fv.args
             if m == "reshape":
